@@ -1,12 +1,13 @@
 package main
 
 import (
-	"os"
 	"bytes"
 	"context"
 	"fmt"
 	"io"
+	"os"
 	"sort"
+	"strconv"
 	"strings"
 	"time"
 
@@ -39,6 +40,9 @@ type mnode struct {
 	errs     []string // nil = package default (stderr)
 	depth    int
 }
+
+// c10lookalikes counts children named by the application in the style of a generated name
+var c10lookalikes int
 
 type sharedAttrsT struct {
 	attrs slog.Attrs
@@ -289,7 +293,38 @@ func (e *c10env) ops() []c10op {
 					return nil, ent, false
 				}
 			}
-			return e.add(t, ent), ent, false
+			first := e.add(t, ent)
+			// if the generated name ends in a NUMBER, the application may well name a child of its own in the same style
+			// (two further on): the next anonymous child is a new logger all the same
+			nm := ent.Name()
+			i := len(nm)
+			for i > 0 && nm[i-1] >= '0' && nm[i-1] <= '9' {
+				i--
+			}
+			if i < len(nm) && len(nm)-i < 9 {
+				k, _ := strconv.Atoi(nm[i:])
+				look := nm[:i] + strconv.Itoa(k+2)
+				if t.child(look) == nil {
+					sib := t.e.New(look)
+					for _, n := range e.nodes {
+						if n.e == sib {
+							e.skipClash = fmt.Sprintf("WithWriter(nil) New(%q) on %s did not create a logger: it handed out the existing logger %q", look, t.name, n.name)
+							return nil, ent, false
+						}
+					}
+					e.add(t, sib)
+					second := t.e.New()
+					for _, n := range e.nodes {
+						if n.e == second {
+							e.skipClash = fmt.Sprintf("WithWriter(nil) New() without a name on %s (whose children are %q, generated, and %q, named by the application in the same style) did not create a logger: it handed out the existing logger %q", t.name, nm, look, n.name)
+							return nil, second, false
+						}
+					}
+					c10lookalikes++
+					return e.add(t, second), second, false
+				}
+			}
+			return first, ent, false
 		}},
 		{"Close the writers of a throwaway detached logger", func(e *c10env, t *mnode) (*mnode, *slog.Entry, bool) {
 			// some OTHER part of the application makes a logger of its own (package-level New: it writes to the process's
@@ -960,6 +995,12 @@ func c10defaultLevel(c *Ctx) {
 		}
 		if v, ok := os.LookupEnv("DEBUG"); ok {
 			c.R.Distinct("DEBUG_values_in_the_environment", q(v)) // the driver only passes values that say "no"
+		}
+		if c.X("nocolormode", "") == "1" {
+			// the application's process-wide "--no-color" switch (hedzr/is) is on: it strips escape sequences, it is no
+			// mode call on anybody's logger - a logger made by the package-level New still STARTS in colored format
+			is.SetNoColorMode(true)
+			c.R.Add("default_level_processes_with_the_no_color_switch_on", 1)
 		}
 		check := func(stage string, want slog.Level) bool {
 			l := slog.New("fresh" + stage)
